@@ -164,6 +164,17 @@ var props = []*prop{
 		Fuzz:        &fuzzCfg{Target: "FuzzC06", Seconds: 300},
 	},
 	{
+		ID: "C07", Pkg: "c07", Level: "exploration",
+		Technique:   "property-based robustness testing (rapid; native go fuzzing in the thorough tier) of whole-specification validation over structurally edited documents, with a no-panic / non-nil oracle and process-survival monitoring",
+		LevelText:   "Generated specifications (half with hostile names) and the repository's fixtures, altered by 1..4 structural edits (delete, retype, null, hostile rename, transplant, duplicate, $ref to nowhere / wrong section / with siblings, hostile parameter names); every document that loads is validated in both continue-on-errors modes and through validate.Spec; no panic, no fatal error, both results non-nil.",
+		LevelNote:   "Trusted: the loader as the definition of 'loads'; panic capture; the driver's detection of a dying worker (the case in flight is saved before it runs). The recorded process-killing finding is avoided by construction (counted) and its witness is replayed in isolation.",
+		Assumptions: trusted,
+		Builds:      plain,
+		Quick:       budget{Shards: 14, Checks: 40, TimeoutS: 600, ShrinkS: 30},
+		Thorough:    budget{Shards: 14, Checks: 1500, TimeoutS: 5000, ShrinkS: 60},
+		Fuzz:        &fuzzCfg{Target: "FuzzC07", Seconds: 300},
+	},
+	{
 		ID: "C08", Pkg: "c08", Level: "exploration",
 		Technique:   "stateful property-based testing (rapid): generated call sequences on one long-lived validator, differential against freshly built validators and against the validator's own earlier answers",
 		LevelText:   "One non-recycling schema / parameter / header validator per case, 5..40 Validate calls over a pool of values with repeats in generated order; each outcome (verdict, message sets) must equal that of a validator freshly built from a re-parsed definition and the earlier outcome for the same value.",
